@@ -42,7 +42,7 @@ PRIMITIVE_NODES = {"StrMethod", "IntMethod", "FloatMethod", "BoolMethod", "NoneM
 
 
 def strategy(tier):
-    cfg = {"max_depth": 3 if tier == "quick" else 4, "field_conv": True, "std": True, "leaf_validators": True, "generics": True, "root_schema": True}
+    cfg = {"max_depth": 3 if tier == "quick" else 4, "field_conv": True, "std": True, "leaf_validators": True, "generics": True, "root_schema": True, "class_validators": True}
     return tdcase.td_cases(cfg, n_data=(4, 10))
 
 
